@@ -9,7 +9,7 @@ def parseShape : String → Option Shape
 
 def parseBody : String → Option Body
   | "empty" => some .empty | "valid" => some .valid | "malformed" => some .malformed
-  | "wrongtype" => some .wrongtype | _ => none
+  | "wrongtype" => some .wrongtype | "broken" => some .broken | _ => none
 
 def parseFault : String → Option Fault
   | "refused" => some .refused | "cancelled" => some .cancelled | "timeout" => some .timeout | _ => none
@@ -53,7 +53,7 @@ def parseStep : Sexp → Option (ShootVerif.Retry.Outcome × Body)
     some (.resp s, b)
   | _ => none
 
-/-- `(rest-call (shape ptr|slice|map|none) (status n) (body empty|valid|malformed|wrongtype))`
+/-- `(rest-call (shape ptr|slice|map|none) (status n) (body empty|valid|malformed|wrongtype|broken))`
     `(rest-call (shape …) (fault refused|cancelled|timeout))`
     `(rest-call (shape …) (resperr n))`                       client.Do returned the n response AND an error
     `(rest-call (shape …) (retry n) (script (r 503 malformed) e (r 200 valid) …))`
